@@ -236,6 +236,7 @@ type bsGen struct {
 	pfs     int
 	// harness-side expectation (used only to annotate hm=)
 	stored map[string][]byte // multihash -> data
+	ghosts []cid.Cid         // never stored, digest adjacent to a stored block's
 }
 
 func newBsGen(r *RNG, tier string) *bsGen {
@@ -295,6 +296,28 @@ func newBsGen(r *RNG, tier string) *bsGen {
 			g.aliases = append(g.aliases, cid.NewCidV1(codecs[r.Intn(len(codecs))], c.Hash()))
 		}
 	}
+	// near misses: identity-multihash CIDs whose digest shares the bucket and all but the last 1-3 bytes with a block's
+	// digest; the ghost is never stored (an index hit on the sibling's stored prefix must not answer for it), or is stored too
+	if r.Bool(55) {
+		d1 := make([]byte, 8)
+		for j := range d1 {
+			d1[j] = byte(r.Intn(256))
+		}
+		d2 := append([]byte{}, d1...)
+		for j := 8 - (1 + r.Intn(3)); j < 8; j++ {
+			d2[j] ^= byte(1 + r.Intn(255))
+		}
+		c1, err1 := cid.Prefix{Version: 1, Codec: cid.Raw, MhType: mh.IDENTITY, MhLength: -1}.Sum(d1)
+		c2, err2 := cid.Prefix{Version: 1, Codec: codecs[r.Intn(len(codecs))], MhType: mh.IDENTITY, MhLength: -1}.Sum(d2)
+		if err1 == nil && err2 == nil {
+			g.blocks = append(g.blocks, bsBlock{c: c1, data: d1, valid: true})
+			if r.Bool(30) {
+				g.blocks = append(g.blocks, bsBlock{c: c2, data: d2, valid: true})
+			} else {
+				g.ghosts = append(g.ghosts, c2)
+			}
+		}
+	}
 	return g
 }
 
@@ -323,6 +346,9 @@ func (g *bsGen) Next(r *RNG, hist []Op) (Op, bool) {
 	pickCid := func() cid.Cid {
 		if len(g.aliases) > 0 && r.Bool(25) {
 			return g.aliases[r.Intn(len(g.aliases))]
+		}
+		if len(g.ghosts) > 0 && r.Bool(15) {
+			return g.ghosts[r.Intn(len(g.ghosts))]
 		}
 		if r.Bool(8) {
 			// unknown CID
